@@ -237,3 +237,107 @@ func (w *differ) walk(path string, a, b reflect.Value) {
 		w.add(path, "harness: unsupported kind %v", a.Kind())
 	}
 }
+
+// zooProcess draws a non-executable process that the engine never runs: a collection of element kinds
+// and olive extension data with drawn attribute values (zero values, empty strings, entities included),
+// present in the document only so that the structural clauses of C15 see them.
+func zooProcess(d *Draw) string {
+	var b strings.Builder
+	pick := func(xs ...string) string { return xs[d.N(len(xs))] }
+	tf := func() string { return pick("true", "false") }
+	b.WriteString("  <bpmn:process id=\"ZZ\" isExecutable=\"false\"" + pick("", " name=\"zoo &amp; co\"", " isClosed=\"true\"", " processType=\"Private\"") + ">\n")
+	if d.Bool() {
+		b.WriteString("    <bpmn:documentation id=\"ZZ_doc\">about &lt;this&gt; process</bpmn:documentation>\n")
+	}
+	b.WriteString("    <bpmn:startEvent id=\"ZZ_start\"><bpmn:outgoing>ZZ_f1</bpmn:outgoing></bpmn:startEvent>\n")
+	// call activity
+	b.WriteString("    <bpmn:callActivity id=\"ZZ_call\"" + pick("", " name=\"call\"", " calledElement=\"other\"") + ">\n      <bpmn:extensionElements>\n")
+	fmt.Fprintf(&b, "        <olive:calledElement definitionId=\"%s\" processId=\"%s\" propagateAllChildVariables=\"%s\"/>\n", pick("", "d1"), pick("", "p1"), tf())
+	if d.Bool() {
+		fmt.Fprintf(&b, "        <olive:calledDecision decisionId=\"%s\" result=\"%s\"/>\n", pick("", "dec"), pick("", "res"))
+	}
+	b.WriteString("      </bpmn:extensionElements>\n      <bpmn:incoming>ZZ_f1</bpmn:incoming><bpmn:outgoing>ZZ_f2</bpmn:outgoing>\n    </bpmn:callActivity>\n")
+	// service task
+	b.WriteString("    <bpmn:serviceTask id=\"ZZ_svc\"" + pick("", " implementation=\"##WebService\"") + ">\n      <bpmn:extensionElements>\n")
+	fmt.Fprintf(&b, "        <olive:taskDefinition type=\"%s\" timeout=\"%s\" retries=\"%s\" target=\"%s\" metadata=\"%s\"/>\n",
+		pick("", "grpc", "http"), pick("", "PT5S"), pick("0", "3", "-1"), pick("", "host:1"), pick("", "{&quot;a&quot;:1}"))
+	types := []string{"string", "integer", "boolean", "float", "object", "array"}
+	item := func(tag string, i int) {
+		fmt.Fprintf(&b, "          <olive:%s name=\"n%d\" value=\"%s\" type=\"%s\" ref=\"%s\"/>\n", tag, i, pick("", "v", "0", "false", "{&quot;k&quot;:[1,2]}", " spaced "), types[d.N(len(types))], pick("", "$x.y"))
+	}
+	if n := d.N(4); n > 0 {
+		b.WriteString("        <olive:taskHeaders>\n")
+		for i := 0; i < n; i++ {
+			item("header", i)
+		}
+		b.WriteString("        </olive:taskHeaders>\n")
+	}
+	if n := d.N(4); n > 0 {
+		b.WriteString("        <olive:properties>\n")
+		for i := 0; i < n; i++ {
+			item("property", i)
+		}
+		b.WriteString("        </olive:properties>\n")
+	}
+	if n := d.N(3); n > 0 {
+		b.WriteString("        <olive:results>\n")
+		for i := 0; i < n; i++ {
+			item("field", i)
+		}
+		b.WriteString("        </olive:results>\n")
+	}
+	for i, n := 0, d.N(3); i < n; i++ {
+		fmt.Fprintf(&b, "        <olive:dataInput name=\"in%d\" targetRef=\"%s\"/>\n", i, pick("", "ZZ_do"))
+	}
+	for i, n := 0, d.N(3); i < n; i++ {
+		fmt.Fprintf(&b, "        <olive:dataOutput name=\"out%d\" targetRef=\"%s\"/>\n", i, pick("", "ZZ_do"))
+	}
+	b.WriteString("      </bpmn:extensionElements>\n      <bpmn:incoming>ZZ_f2</bpmn:incoming><bpmn:outgoing>ZZ_f3</bpmn:outgoing>\n    </bpmn:serviceTask>\n")
+	// script task
+	b.WriteString("    <bpmn:scriptTask id=\"ZZ_script\"" + pick("", " scriptFormat=\"js\"") + ">\n      <bpmn:extensionElements>\n")
+	fmt.Fprintf(&b, "        <olive:script expression=\"%s\" result=\"%s\" resultType=\"%s\"/>\n", pick("", "a + 1", "x &lt; 2"), pick("", "r"), pick("", "integer", "string"))
+	b.WriteString("      </bpmn:extensionElements>\n      <bpmn:incoming>ZZ_f3</bpmn:incoming><bpmn:outgoing>ZZ_f4</bpmn:outgoing>\n")
+	if d.Bool() {
+		b.WriteString("      <bpmn:script>return 1 &lt; 2;</bpmn:script>\n")
+	}
+	b.WriteString("    </bpmn:scriptTask>\n")
+	// gateway with default, formal and informal conditions
+	b.WriteString("    <bpmn:exclusiveGateway id=\"ZZ_x\" default=\"ZZ_f6\"" + pick("", " gatewayDirection=\"Diverging\"") + "><bpmn:incoming>ZZ_f4</bpmn:incoming><bpmn:outgoing>ZZ_f5</bpmn:outgoing><bpmn:outgoing>ZZ_f6</bpmn:outgoing></bpmn:exclusiveGateway>\n")
+	// events
+	b.WriteString("    <bpmn:intermediateCatchEvent id=\"ZZ_catch\"" + pick("", " parallelMultiple=\"true\"", " parallelMultiple=\"false\"") + "><bpmn:incoming>ZZ_f5</bpmn:incoming><bpmn:outgoing>ZZ_f7</bpmn:outgoing>\n")
+	switch d.N(4) {
+	case 0:
+		fmt.Fprintf(&b, "      <bpmn:timerEventDefinition id=\"ZZ_td\"><bpmn:%s xsi:type=\"bpmn:tFormalExpression\">%s</bpmn:%s></bpmn:timerEventDefinition>\n", "timeCycle", "R3/PT10S", "timeCycle")
+	case 1:
+		b.WriteString("      <bpmn:timerEventDefinition id=\"ZZ_td\"><bpmn:timeDate>2030-01-01T00:00:00Z</bpmn:timeDate></bpmn:timerEventDefinition>\n")
+	case 2:
+		b.WriteString("      <bpmn:signalEventDefinition id=\"ZZ_sd\" signalRef=\"ZZ_sig\"/>\n")
+		if d.Bool() {
+			b.WriteString("      <bpmn:messageEventDefinition id=\"ZZ_md\" messageRef=\"ZZ_msg\"><bpmn:operationRef>op1</bpmn:operationRef></bpmn:messageEventDefinition>\n")
+		} else {
+			b.WriteString("      <bpmn:messageEventDefinition id=\"ZZ_md\" messageRef=\"ZZ_msg\"/>\n")
+		}
+	case 3:
+		b.WriteString("      <bpmn:conditionalEventDefinition id=\"ZZ_cd\"><bpmn:condition xsi:type=\"bpmn:tFormalExpression\"" + pick("", " language=\"https://github.com/expr-lang/expr\"") + ">a &gt; 1</bpmn:condition></bpmn:conditionalEventDefinition>\n")
+	}
+	b.WriteString("    </bpmn:intermediateCatchEvent>\n")
+	b.WriteString("    <bpmn:boundaryEvent id=\"ZZ_b\" attachedToRef=\"ZZ_svc\" cancelActivity=\"" + tf() + "\"><bpmn:outgoing>ZZ_f8</bpmn:outgoing><bpmn:signalEventDefinition id=\"ZZ_bsd\" signalRef=\"ZZ_sig\"/></bpmn:boundaryEvent>\n")
+	b.WriteString("    <bpmn:intermediateThrowEvent id=\"ZZ_throw\"><bpmn:incoming>ZZ_f8</bpmn:incoming><bpmn:signalEventDefinition id=\"ZZ_tsd\" signalRef=\"ZZ_sig\"/></bpmn:intermediateThrowEvent>\n")
+	b.WriteString("    <bpmn:endEvent id=\"ZZ_end\"><bpmn:incoming>ZZ_f6</bpmn:incoming><bpmn:incoming>ZZ_f7</bpmn:incoming></bpmn:endEvent>\n")
+	b.WriteString("    <bpmn:dataObject id=\"ZZ_do\" name=\"ZZ_do\"" + pick("", " isCollection=\"true\"", " isCollection=\"false\"") + ">")
+	if d.Bool() {
+		b.WriteString("<bpmn:extensionElements><olive:dataObjectBody>{&quot;k&quot;: 1}</olive:dataObjectBody></bpmn:extensionElements>")
+	}
+	b.WriteString("</bpmn:dataObject>\n")
+	b.WriteString("    <bpmn:sequenceFlow id=\"ZZ_f1\" sourceRef=\"ZZ_start\" targetRef=\"ZZ_call\"/>\n")
+	b.WriteString("    <bpmn:sequenceFlow id=\"ZZ_f2\" sourceRef=\"ZZ_call\" targetRef=\"ZZ_svc\"" + pick("", " name=\"\"", " name=\"next\"") + "/>\n")
+	b.WriteString("    <bpmn:sequenceFlow id=\"ZZ_f3\" sourceRef=\"ZZ_svc\" targetRef=\"ZZ_script\"/>\n")
+	b.WriteString("    <bpmn:sequenceFlow id=\"ZZ_f4\" sourceRef=\"ZZ_script\" targetRef=\"ZZ_x\"/>\n")
+	b.WriteString("    <bpmn:sequenceFlow id=\"ZZ_f5\" sourceRef=\"ZZ_x\" targetRef=\"ZZ_catch\">" + pick("<bpmn:conditionExpression xsi:type=\"bpmn:tFormalExpression\">a &gt; 1</bpmn:conditionExpression>", "<bpmn:conditionExpression>when it rains</bpmn:conditionExpression>", "<bpmn:conditionExpression xsi:type=\"bpmn:tFormalExpression\" language=\"http://www.w3.org/1999/XPath\">//a = 'b'</bpmn:conditionExpression>") + "</bpmn:sequenceFlow>\n")
+	b.WriteString("    <bpmn:sequenceFlow id=\"ZZ_f6\" sourceRef=\"ZZ_x\" targetRef=\"ZZ_end\"/>\n")
+	b.WriteString("    <bpmn:sequenceFlow id=\"ZZ_f7\" sourceRef=\"ZZ_catch\" targetRef=\"ZZ_end\"/>\n")
+	b.WriteString("    <bpmn:sequenceFlow id=\"ZZ_f8\" sourceRef=\"ZZ_b\" targetRef=\"ZZ_throw\"/>\n")
+	b.WriteString("  </bpmn:process>\n")
+	b.WriteString("  <bpmn:signal id=\"ZZ_sig\" name=\"ZZ_sig\"/>\n  <bpmn:message id=\"ZZ_msg\" name=\"ZZ_msg\"/>\n")
+	return b.String()
+}
